@@ -496,6 +496,9 @@ def snapshot_provenance(run, model, rule):
         for sub in ast.walk(fi.node):
             if isinstance(sub, ast.Compare) and len(sub.ops) == 1 and isinstance(sub.ops[0], (ast.Is, ast.IsNot)) and not (isinstance(sub.comparators[0], ast.Constant) and sub.comparators[0].value is None):
                 ident = True
+            # identity through id(): ``id(snap) in <set of ids>``
+            if isinstance(sub, ast.Compare) and len(sub.ops) == 1 and isinstance(sub.ops[0], (ast.In, ast.NotIn)) and isinstance(sub.left, ast.Call) and isinstance(sub.left.func, ast.Name) and sub.left.func.id == "id":
+                ident = True
         if not ident and bad is None:
             bad = "equal names always raise: the very same snapshot object inherited along two paths of a diamond is reported as a conflict (no identity test)"
         # names are recorded
